@@ -42,6 +42,9 @@ def ceilLog2 (m : Int) : Except Err Int :=
 def isqrt (a : Int) : Except Err Int :=
   if a < 0 then .error .valueError else .ok (Nat.sqrt a.toNat : Nat)
 
+/-- the length argument `r` of `itertools.combinations / permutations / …`: a negative one is a ValueError -/
+def itertoolsR (r : Int) : Except Err Nat := if r < 0 then .error .valueError else .ok r.toNat
+
 /-- `min(a, b)`, `max(a, b)` on integers -/
 def min2 (a b : Int) : Int := if b < a then b else a
 def max2 (a b : Int) : Int := if b > a then b else a
